@@ -20,9 +20,9 @@ def jobs(tier):
     AT = ['opm/input/eclipse/Schedule/Action/%s.cpp' % n for n in ('ASTNode', 'ActionAST', 'ActionContext', 'ActionParser', 'ActionResult', 'ActionValue', 'Enums')] + [
           'opm/input/eclipse/Schedule/SummaryState.cpp', 'opm/input/eclipse/Schedule/Well/WListManager.cpp', 'opm/input/eclipse/Schedule/Well/WList.cpp', 'opm/common/utility/TimeService.cpp',
           'opm/common/utility/shmatch.cpp', 'opm/common/utility/String.cpp', 'opm/input/eclipse/EclipseState/SummaryConfig/SummaryConfig.cpp']
-    for f in range(6):
-        out.append(dict(name='parse_scalar_form%d' % f, src='h_actparse.cpp', defs={'FORM': f}, entry='h_scalar_conditions', tus=AT, fp='real', loopmax=20000, maxsteps=80000000, timeout=900, opts=['--ctors'],
+    for f in range(8):
+        if f < 6: out.append(dict(name='parse_scalar_form%d' % f, src='h_actparse.cpp', defs={'CFORM': f}, entry='h_scalar_conditions', tus=AT, fp='real', loopmax=20000, maxsteps=80000000, timeout=900, opts=['--ctors'],
                         bounds='three field comparisons, form %d of AND/OR/parentheses, all real values away from the threshold' % f))
-        out.append(dict(name='parse_wells_form%d' % f, src='h_actparse.cpp', defs={'FORM': f}, entry='h_well_conditions', tus=AT, fp='real', loopmax=20000, maxsteps=80000000, timeout=900, opts=['--ctors'],
+        out.append(dict(name='parse_wells_form%d' % f, src='h_actparse.cpp', defs={'CFORM': f}, entry='h_well_conditions', tus=AT, fp='real', loopmax=20000, maxsteps=80000000, timeout=900, opts=['--ctors'],
                         bounds='two well comparisons over 3 wells and one field comparison, form %d' % f))
     return out
